@@ -224,6 +224,8 @@ def specs_for(stage):
             yield from gen_dag.decorations(s)
     elif stage == "N2":
         yield from gen_dag.base_specs(2)
+    elif stage == "N2-three-output-producer":
+        yield from gen_dag.tri_output_specs()
     elif stage == "N2-decorated":
         for s in gen_dag.base_specs(2):
             yield from gen_dag.decorations(s)
@@ -236,8 +238,9 @@ def specs_for(stage):
         yield from gen_dag.base_specs(4, max_params=2, nouts=(1,), min_params=1)
 
 
-STAGES = {"quick": ["N1", "N2", "N2-decorated", "N3"], "thorough": ["N1", "N2", "N2-decorated", "N3", "N3-decorated", "N4-single-output"]}
-CHUNK = {"N1": 8, "N2": 16, "N2-decorated": 40, "N3": 40, "N3-decorated": 200, "N4-single-output": 30}
+STAGES = {"quick": ["N1", "N2", "N2-three-output-producer", "N2-decorated", "N3"],
+          "thorough": ["N1", "N2", "N2-three-output-producer", "N2-decorated", "N3", "N3-decorated", "N4-single-output"]}
+CHUNK = {"N2-three-output-producer": 8, "N1": 8, "N2": 16, "N2-decorated": 40, "N3": 40, "N3-decorated": 200, "N4-single-output": 30}
 
 
 def plan(tier, seed):
